@@ -346,17 +346,28 @@ def gen_stop(seed: int, k: int | None = None, kind: str | None = None) -> dict:
                 break
         sc['handlers'].append({'bus': 'b0', 'pattern': r.choice(['E0', 'E1', '*']), 'kind': r.choice(['async', 'async', 'sync']), 'prog': prog})
     sc['handlers'].append({'bus': 'b0', 'pattern': 'E2', 'kind': 'async', 'prog': [['pause', dur(r)]] if r.random() < 0.5 else []})
-    if nb > 1:
+    rich = nb > 1 and r.random() < 0.5
+    if nb > 1 and not rich:
         # another bus whose handler awaits a child on the victim bus
         sc['handlers'].append({'bus': 'b1', 'pattern': 'E3', 'kind': 'async',
                                'prog': [['pause', dur(r)], ['dispatch_await', 'b0', r.choice(['E0', 'E1']), {}, 'c'], ['pause', dur(r)]]})
+    if rich:
+        # another bus with a backlog of its own whose handlers await children (on their own bus or on the victim):
+        # its polling loops walk over all buses, the victim included, while the stop arrives
+        sc['handlers'].append({'bus': 'b1', 'pattern': 'E3', 'kind': 'async',
+                               'prog': [['pause', dur(r)], ['dispatch_await', r.choice(['b1', 'b1', 'b0']), r.choice(['E4', 'E0']), {}, 'c']]})
+        sc['handlers'].append({'bus': 'b1', 'pattern': 'E4', 'kind': 'async', 'prog': [['pause', dur(r)]] if r.random() < 0.7 else []})
+        sc['handlers'].append({'bus': 'b1', 'pattern': 'E5', 'kind': 'async', 'prog': [['pause', dur(r)]]})
     prog = []
     for i in range(r.choice([0, 1, 2, 3, 5, 8])):
         prog.append(['dispatch', 'b0', r.choice(['E0', 'E1']), {}, f'r{i}'])
         if r.random() < 0.2:
             prog.append(['pause', dur(r)])
-    if nb > 1 and r.random() < 0.7:
+    if nb > 1 and not rich and r.random() < 0.7:
         prog.insert(r.randrange(len(prog) + 1), ['dispatch', 'b1', 'E3', {}, 'q'])
+    if rich:
+        for j in range(r.choice([1, 2, 3])):
+            prog.insert(r.randrange(len(prog) + 1), ['dispatch', 'b1', r.choice(['E3', 'E3', 'E5']), {}, f'q{j}'])
     if prog and r.random() < 0.3:
         prog.append(['await', 'r0'])
     prog.append(['pause', 1.5])
@@ -498,7 +509,7 @@ def gen_expect(seed: int) -> dict:
         if r.random() < 0.6:
             prog.append(['pause', dur(r)])
         for _ in range(r.choice([1, 1, 2])):
-            prog.append(['expect', r.choice(buses), r.choice(types), filt(), r.choice([0.05, 0.1, 0.1001, 0.15, 0.3, 0.5, 1.0]), r.choice(['class', 'name'])])
+            prog.append(['expect', r.choice(buses), r.choice(types), filt(), r.choice([0, 0, 0.05, 0.1, 0.1001, 0.15, 0.3, 0.5, 1.0]), r.choice(['class', 'name'])])
         sc['callers'].append({'prog': prog})
     # producers
     for _ in range(r.choice([1, 1, 2])):
